@@ -315,4 +315,6 @@ def rule_gain(repo, tier):
 
 
 def rules(repo, tier):
-    return [rule_clk(repo, tier), rule_feas_cost(repo, tier), rule_gain(repo, tier)]
+    from ..stale import rule_stale
+    return [rule_clk(repo, tier), rule_feas_cost(repo, tier), rule_gain(repo, tier),
+            rule_stale(repo, 'C14.STALE', [(LQR, 'LQR.lqr_backward'), (LQR, 'LQR.lqr_forward'), ('pypose.module.mpc', 'MPC.forward'), ('pypose.module.dynamics', 'runsys')])]
